@@ -78,6 +78,9 @@ REQS = {
     'jo1': ('POST', '', b'{"ord": {"n": 1}}'),
     'jo2': ('POST', '', b'{"ord": {"n": 2}}'),
     'je1': ('POST', '', b'{"echo": {"a": 1, "s": "first"}}'),
+    'xe1': ('POST', '', ('<t:echo xmlns:t="%s"><t:a>1</t:a><t:s>first</t:s></t:echo>' % TNS).encode()),
+    'xe2': ('POST', '', ('<t:other xmlns:t="%s"><t:p><t:x>5</t:x><t:s>obj</t:s></t:p></t:other>' % TNS).encode()),
+    'xbad': ('POST', '', ('<t:echo xmlns:t="%s"><t:a>1</t:a><t:s>unclosed</t:echo>' % TNS).encode()),
 }
 
 DRIVERS = {
@@ -97,6 +100,9 @@ DRIVERS = {
     # the dict-document family (JSON, positional objects): per-protocol caches of field order and attributes
     'json-ordered|json-ordered': (['jo1', 'jo2'], None, False, ['protocol/_base.py', 'server/wsgi.py'], JSONF, 'json'),
     'json-ordered|json-rpc': (['jo1', 'je1'], 'soft', False, ['protocol/_base.py', 'server/wsgi.py'], JSONF, 'json'),
+    # plain XmlDocument as in and out protocol (its own request path: parser, document, envelope-less decomposition)
+    'xml|xml': (['xe1', 'xe2'], None, False, ['protocol/xml.py', 'server/wsgi.py'], RPC, 'xml'),
+    'xml-malformed|xml': (['xbad', 'xe1'], None, False, ['protocol/xml.py', 'server/wsgi.py'], RPC, 'xml'),
 }
 
 
@@ -134,6 +140,9 @@ class World(object):
         if proto == 'json':
             inp = harness.make_proto('json', validator)
             outp = harness.make_proto('json', complex_as=list)
+        elif proto == 'xml':
+            inp = harness.make_proto('xml', validator)
+            outp = harness.make_proto('xml')
         else:
             inp = harness.make_proto('soap11', validator)
             outp = harness.make_proto('soap11', polymorphic=True) if poly else harness.make_proto('soap11')
